@@ -195,3 +195,16 @@ Theorem codec_instantiates_restore : forall (decompress : list N -> list N -> op
   exists t, decode_full decompress frame_decode cks b = DOk t.
 Proof. exact LS.Codec.Proofs.codec_instantiates_restore. Qed.
 Print Assumptions codec_instantiates_restore.
+
+(** * Staging files start empty (regenerated site list [Gen.FsSites])
+
+    [restore_output_discipline] models the creation of <output>.tmp as os.Create.  This
+    sweep ties that to the CURRENT source: every site that opens a staging path tmp(...)
+    for writing creates it with os.Create or passes O_TRUNC, so a longer file left under
+    that name by a killed earlier run cannot leave its tail in what is renamed into place. *)
+From LS Require Gen.FsSites Stmts.Model Stmts.Proofs.
+
+Theorem staging_files_start_empty :
+  forallb Stmts.Model.staging_open_ok Gen.FsSites.sites = true.
+Proof. exact Stmts.Proofs.staging_files_start_empty_lemma. Qed.
+Print Assumptions staging_files_start_empty.
